@@ -94,8 +94,8 @@ def variant(rng, k, comp=None):
             vl = [rng.randrange(4096)]
         vlans = tuple(vl)
     elif comp == "chan":
-        # keep the parity: the harness slices packets of odd channels without VLAN tags from the IP layer
-        chan ^= 1 << rng.randrange(1, 32)
+        # (odd channels without VLAN tags are sliced from the IP layer, even ones from Ethernet)
+        chan ^= 1 << rng.randrange(0, 32)
     elif comp == "ver":
         if ver == 4:
             ver, src, dst = 6, src + bytes(12), dst + bytes(12)
@@ -596,7 +596,7 @@ def buf_case(rng):
 def generate(rng, tier):
     q = tier == "quick"
     n_inter, n_faulty, n_overlap, n_reuse, n_retain, n_noise, n_big, n_buf = (
-        (1200, 1500, 400, 900, 400, 1500, 4, 3000) if q else (12000, 15000, 4000, 9000, 4000, 15000, 40, 30000)
+        (3000, 3500, 1000, 2500, 1000, 4000, 6, 8000) if q else (25000, 30000, 8000, 20000, 8000, 30000, 60, 60000)
     )
     # the F10 history (fixed by a44b17c) and two neighbours, first
     k0 = (4, bytes([10, 0, 0, 1]), bytes([10, 0, 0, 2]), 7, 17, (), 0)
@@ -621,7 +621,7 @@ def generate(rng, tier):
     for _ in range(n_buf):
         yield buf_case(rng)
     # exhaustive permutations with one duplicate
-    plan = [(2, 6), (3, 6), (4, 3)] if q else [(2, 30), (3, 30), (4, 20), (5, 8)]
+    plan = [(2, 10), (3, 10), (4, 6)] if q else [(2, 40), (3, 40), (4, 30), (5, 12)]
     for nfrag, ncuts in plan:
         for c in perm_cases(rng, nfrag, ncuts):
             yield c
